@@ -344,11 +344,11 @@ UNITS = {
     'quick': [('u_cast_ray', {'dirkind': k}) for k in ('general', 'vertical', 'horizontal', 'zero')] +
              [('u_edge', {'dirn': a, 'raydir': b}) for (a, b) in ((4, 1), (0, 1), (1, 1), (6, 0), (5, None), (0, None))] +
              [('u_poly', {'pattern': p, 'raydir': r, 'closed': c}) for (p, r, c) in (((0, 1), 1, False), ((0, 1), 0, False), ((1, 7, 1), 0, False), ((0, 5), 4, False), ((4, 3), 1, False),
-                                                                                   ((0, 1, 2, 3), 1, True), ((1, 7, 1), 5, False), ((0, 1, 2), 3, False))] +
+                                                                                   ((0, 1, 2, 3), 1, True), ((1, 7, 1), 5, False), ((0, 1, 2), 3, False), ((0, 1, 0, 1, 0), 1, False), ((0, 1, 0, 1, 0), 0, False))] +
              [('u_curve', {'pattern': (0, 1), 'raydir': 4}), ('u_curve', {'pattern': (1, 7), 'raydir': 1})],
     'thorough': [('u_cast_ray', {'dirkind': k}) for k in ('general', 'vertical', 'horizontal', 'zero')] +
                 [('u_edge', {'dirn': a, 'raydir': b}) for a in range(8) for b in (0, 1, 4, 6, None)] +
-                [('u_poly', {'pattern': p, 'raydir': r, 'closed': False}) for p in ((0, 1), (1, 7, 1), (0, 5), (4, 3), (0, 1, 2), (1, 7, 1, 7), (0, 5, 0, 6), (0, 1, 0, 1, 0)) for r in (0, 1, 2, 3, 4, 6)] +
+                [('u_poly', {'pattern': p, 'raydir': r, 'closed': False}) for p in ((0, 1), (1, 7, 1), (0, 5), (4, 3), (0, 1, 2), (1, 7, 1, 7), (0, 5, 0, 6), (0, 1, 0, 1, 0)) for r in (0, 1, 2, 3, 4, 6)] + [('u_poly', {'pattern': (1, 7, 1, 7, 1), 'raydir': 0, 'closed': False})] +
                 [('u_poly', {'pattern': (0, 1, 2, 3), 'raydir': r, 'closed': True}) for r in (0, 1, 4, 7)] +
                 [('u_curve', {'pattern': p, 'raydir': r}) for p in ((0, 1), (1, 7), (4, 0, 5)) for r in (0, 1, 4)],
 }
